@@ -920,6 +920,190 @@ func checkC12(c *Ctx) {
 		})
 		c.Floor("concurrent_writes_of_one_name", 1000)
 	}
+	// a cache constructed while its directory changes: the change is made from inside
+	// the constructor's own scan, and the constructor then lingers a moment, so that
+	// the watcher goroutine it has already started gets the event while the
+	// constructor is still at work. Monitors: the race detector, and refresh.begin /
+	// refresh.end of one cache never nest (two refreshes at once both assign the index)
+	if c.replayCase == "" || strings.HasPrefix(c.replayCase, "construct") {
+		c.RunCases("construct", c.pick(40, 400), 4, func(cs *Case) {
+			r := cs.R
+			root := filepath.Join(c.Scratch, sanitize(cs.Name))
+			dir, staging := filepath.Join(root, "d"), filepath.Join(root, "staging")
+			must(os.MkdirAll(dir, 0o755))
+			must(os.MkdirAll(staging, 0o755))
+			defer os.RemoveAll(root)
+			n := 2 + r.Intn(3)
+			for i := 0; i < n; i++ {
+				must(os.WriteFile(filepath.Join(dir, fmt.Sprintf("init%d.json", i)), specBytes(genSpec(r, SpecGen{Vendor: "vendor.com", Class: fmt.Sprintf("c%d", i), DevNames: []string{"dev"}, Plain: true, Marker: "i"}), "json"), 0o644))
+			}
+			must(os.WriteFile(filepath.Join(staging, "new.json"), specBytes(genSpec(r, SpecGen{Vendor: "vendor.com", Class: "new", DevNames: []string{"dev"}, Plain: true, Marker: "n"}), "json"), 0o644))
+			kind := pickStr(r, "rename-in", "remove", "rewrite")
+			linger := time.Duration(1+r.Intn(8)) * time.Millisecond
+			var active atomic.Int32
+			var nested, fired atomic.Bool
+			unhook := hookPrefix(root, func(point, arg string, _ int) {
+				switch point {
+				case "refresh.begin":
+					if active.Add(1) > 1 {
+						nested.Store(true)
+					}
+				case "refresh.end":
+					active.Add(-1)
+				case "scan.beforeRead":
+					if fired.CompareAndSwap(false, true) {
+						switch kind {
+						case "rename-in":
+							os.Rename(filepath.Join(staging, "new.json"), filepath.Join(dir, "new.json"))
+						case "remove":
+							os.Remove(filepath.Join(dir, fmt.Sprintf("init%d.json", n-1)))
+						default:
+							data, _ := os.ReadFile(filepath.Join(staging, "new.json"))
+							os.WriteFile(filepath.Join(dir, fmt.Sprintf("init%d.json", n-1)), data, 0o644)
+						}
+						time.Sleep(linger)
+					}
+				}
+			})
+			defer unhook()
+			cache, _ := cdi.NewCache(cdi.WithSpecDirs(dir))
+			defer releaseCache(cache)
+			if watcherMissing(cache) {
+				c.Inconclusive("no-inotify-instance")
+				return
+			}
+			for k := 0; k < 20; k++ {
+				cache.ListDevices()
+				cache.GetErrors()
+				time.Sleep(time.Millisecond)
+			}
+			if fired.Load() {
+				c.Count("caches_constructed_while_their_directory_changed", 1)
+				c.Count("construction_change:"+kind, 1)
+			}
+			if nested.Load() {
+				cs.Violation("unserialised-refresh", map[string]string{"change": kind}, fmt.Sprintf("two refreshes of one cache ran at the same time (refresh.begin seen again before refresh.end) while the cache was constructed and its directory changed (%s)", kind), nil)
+			}
+		})
+		c.Floor("caches_constructed_while_their_directory_changed", 20)
+	}
+	// the kernel's event queue of a cache's watcher overflows (the watcher goroutine
+	// is held at its first event while more events than the queue takes are produced),
+	// readers and refreshers keep going while the watcher works through what is left
+	if c.replayCase == "" || strings.HasPrefix(c.replayCase, "overflow") {
+		c.RunCases("overflow", c.pick(1, 4), 1, func(cs *Case) {
+			limit := 0
+			if b, err := os.ReadFile("/proc/sys/fs/inotify/max_queued_events"); err == nil {
+				fmt.Sscanf(strings.TrimSpace(string(b)), "%d", &limit)
+			}
+			if limit <= 0 || limit > 200000 {
+				c.Inconclusive("event-queue-size")
+				return
+			}
+			r := cs.R
+			root := filepath.Join(c.Scratch, sanitize(cs.Name))
+			dir := filepath.Join(root, "d")
+			must(os.MkdirAll(dir, 0o755))
+			defer os.RemoveAll(root)
+			must(os.WriteFile(filepath.Join(dir, "a.json"), specBytes(c12VersionSpec(1), "json"), 0o644))
+			gate := make(chan struct{})
+			var events atomic.Int64
+			var active atomic.Int32
+			var nested atomic.Bool
+			unhook := hookPrefix(root, func(point, arg string, _ int) {
+				switch point {
+				case "watch.event":
+					if events.Add(1) == 1 {
+						<-gate
+					}
+				case "refresh.begin":
+					if active.Add(1) > 1 {
+						nested.Store(true)
+					}
+				case "refresh.end":
+					active.Add(-1)
+				}
+			})
+			defer unhook()
+			cache, _ := cdi.NewCache(cdi.WithSpecDirs(dir))
+			defer releaseCache(cache)
+			if watcherMissing(cache) {
+				close(gate)
+				c.Inconclusive("no-inotify-instance")
+				return
+			}
+			// the burst: writes to two plain files in turn (consecutive identical events
+			// would be merged by the kernel)
+			fa, err1 := os.Create(filepath.Join(dir, "burst-a.tmp"))
+			fb, err2 := os.Create(filepath.Join(dir, "burst-b.tmp"))
+			must(err1)
+			must(err2)
+			total := limit + limit/2 + r.Intn(1000)
+			for i := 0; i < total/2; i++ {
+				fa.Write([]byte{'x'})
+				fb.Write([]byte{'y'})
+			}
+			fa.Close()
+			fb.Close()
+			must(os.WriteFile(filepath.Join(dir, "late.json"), specBytes(c12VersionSpec(2), "json"), 0o644))
+			stop := make(chan struct{})
+			var wg sync.WaitGroup
+			for g := 0; g < 6; g++ {
+				wg.Add(1)
+				go func(g int) {
+					defer wg.Done()
+					for {
+						select {
+						case <-stop:
+							return
+						default:
+						}
+						switch g % 3 {
+						case 0:
+							for _, q := range cache.ListDevices() {
+								if d := cache.GetDevice(q); d != nil {
+									_ = len(d.ContainerEdits.Env)
+								}
+							}
+						case 1:
+							cache.InjectDevices(&oci.Spec{}, cache.ListDevices()...)
+							cache.GetErrors()
+						default:
+							cache.Refresh()
+							cache.GetSpecDirErrors()
+						}
+						c.Count("operations_while_the_watcher_works_off_an_overflowed_queue", 1)
+					}
+				}(g)
+			}
+			close(gate)
+			// until the watcher has gone through the queue: no further event for a while
+			last, idle := events.Load(), 0
+			for i := 0; i < 1200 && idle < 10; i++ {
+				time.Sleep(50 * time.Millisecond)
+				if now := events.Load(); now == last {
+					idle++
+				} else {
+					last, idle = now, 0
+				}
+			}
+			time.Sleep(200 * time.Millisecond)
+			close(stop)
+			wg.Wait()
+			c.Count("events_produced_for_one_watcher", total)
+			c.Count("events_delivered_after_the_burst", int(events.Load()))
+			if int(events.Load()) >= total {
+				// everything arrived: the queue did not overflow after all
+				c.Count("bursts_without_overflow", 1)
+			} else {
+				c.Count("bursts_with_overflow", 1)
+			}
+			if nested.Load() {
+				cs.Violation("unserialised-refresh", nil, "two refreshes of one cache ran at the same time (refresh.begin seen again before refresh.end) after the watcher's event queue had overflowed", nil)
+			}
+		})
+		c.Floor("bursts_with_overflow", 1)
+	}
 	// concurrent first use of the default cache in fresh (race-built) processes
 	if c.replayCase == "" || strings.HasPrefix(c.replayCase, "first-use") {
 		exe, _ := os.Executable()
